@@ -17,6 +17,18 @@ static void build(const Args &a, std::vector<Case> &out) {
   std::string mode = a.str("mode", "c01");
   bool thorough = a.str("tier", "quick") == "thorough";
   int nkeys = thorough ? 3 : 1, nseeds = (mode == "c02") ? (thorough ? fo::NSEEDS : 3) : (thorough ? 3 : 2), ncont = thorough ? 4 : 2;
+  if (a.num("prod", 0)) { // production constants (16 MiB chunks): the boundary lengths of one and two real chunks, default T=4 and T=1
+    for (int T : {4, 1})
+      for (size_t n : {S - 17, S - 16, S - 1, S, S + 1, 2 * S - 16, 2 * S + 3, 4 * S - 16, 4 * S + 3})
+        for (int cm : {1, 2}) {
+          if (T == 1 && n > 2 * S + 3) continue; // T=1: the single buffer is refilled from the second chunk on; T=4: from the fifth
+          Case c;
+          c.set("T", T).set("n", (long)n).set("cm", cm).set("hm", cm % 3).set("k", 0).set("sd", 0).set("ct", cm == 1 ? 1 : 0);
+          c.cls = "production:T=" + std::to_string(T) + ",cm=" + std::to_string(cm) + "," + lenclass(n, T);
+          out.push_back(c);
+        }
+    return;
+  }
   std::vector<int> Ts = a.list("T", {1, 2, 3, 4, 5, 6, 7, 8, 9, 10, 11, 12, 13, 14, 15, 16});
   for (int T : Ts) {
     size_t maxn = (size_t)(T + 2) * S + 17;
@@ -90,5 +102,6 @@ int main(int argc, char **argv) {
   sp.build = build;
   sp.run = mode == "c02" ? run_c02 : run_c01;
   sp.on_death = [](const Case &, const CaseResult &cr) { return "abnormal-end:" + std::string(cr.exitcode == 42 ? "deadlock" : cr.exitcode == 77 ? "asan" : cr.timeout ? "hang" : "crash") + "|operation did not return normally: " + describe_death(cr); };
+  sp.alarm_s = a.num("prod", 0) ? 600 : 60;
   return main_loop(argc, argv, sp);
 }
